@@ -260,12 +260,7 @@ def monitor_accepted(ctx, out, inp, parser):
 
 
 def exc_kind(out, sections):
-    cls = out.status.split(' ', 1)[1]
-    if cls == 'TypeError':
-        for s, opts in sections:
-            if s.startswith('eventlistener:') and dict(opts).get('result_handler', '').startswith('.'):
-                return 'other-exception:TypeError:relative-result_handler'
-    return 'other-exception:' + cls
+    return 'other-exception:' + out.status.split(' ', 1)[1]
 
 
 def check_case(ctx, st, cfg, label, must_reject, tag):
@@ -294,7 +289,7 @@ def check_case(ctx, st, cfg, label, must_reject, tag):
         if must_reject is False:
             monitor_valid(ctx, cfg, a, inp)
     elif a.status == 'err' and must_reject is False:
-        ctx.violation('rejected-wellformed' + (':' + cfg['expect_kind'] if cfg.get('expect_kind') else ''),
+        ctx.violation('rejected-wellformed' + (':' + cfg['expect_kind'] if cfg.get('expect_kind') and cfg['expect_kind'] in NARROW_OK(a.message) else ''),
                       'a well-formed file was rejected: %s' % a.message[:200], inp)
     if a.status == 'err':
         ctx.count('error:' + classify(a.message))
@@ -320,6 +315,16 @@ def check_case(ctx, st, cfg, label, must_reject, tag):
         ctx.sample({'corruption': label, 'impl': lines[0], 'message': a.message[:160]})
 
 
+def NARROW_OK(message):
+    """the narrow kinds a rejection message is compatible with (so that a different failure of the same input is a new kind)"""
+    ok = []
+    if "for 'environment'" in message and 'Format string' in message:
+        ok.append('percent-escape-in-supervisord-environment')
+    if ("for 'stdout_logfile'" in message or "for 'stderr_logfile'" in message) and 'Format string' in message:
+        ok.append('percent-escape-in-logfile')
+    return ok
+
+
 def classify(msg):
     """coarse error-kind histogram (evidence only, never compared)"""
     for key, kind in (('boolean', 'boolean'), ('invalid literal', 'number'), ('exit code', 'exitcodes'), ('signal', 'signal'),
@@ -333,20 +338,38 @@ def classify(msg):
     return 'other'
 
 
+def _facts(supenv, opts, **kw):
+    f = {'name': 'a', 'kind': 'program', 'numprocs': 1, 'start': 0, 'process_name': '%(program_name)s', 'command': dict(opts)['command'],
+         'priority': None, 'environment': None, 'opts': dict(opts)}
+    f.update(kw)
+    return {'supenv': supenv, 'programs': [f], 'groups': [], 'listeners': [], 'fcgi': []}
+
+
 CORPUS = [
-    # F17 (fixed in /repo): forbidden characters reaching a process name through an expansion
-    ('F17-name-through-ENV-expansion', True, [('supervisord', []), ('program:a', [('command', '/bin/cat'), ('process_name', '%(ENV_VERIF_BAD)s')])]),
-    ('F17-name-through-here-expansion', True, [('supervisord', []), ('program:a', [('command', '/bin/cat'), ('process_name', 'p%(here)s')])]),
-    # open findings
-    ('relative-result_handler', True, [('supervisord', []), ('eventlistener:l', [('command', 'x'), ('events', 'TICK_5'), ('result_handler', '.foo')])]),
-    ('unstripped-eventlistener-section', None, [('supervisord', []), ('eventlistener: lx ', [('command', 'x'), ('events', 'TICK_5')])]),
-    ('stopsignal-zero', 'signal0', [('supervisord', []), ('program:a', [('command', 'x'), ('stopsignal', '0')])]),
-    ('documented-percent-escape', False, [('supervisord', [('environment', 'URI="/first%%20name"')]), ('program:a', [('command', 'x')])]),
+    # (label, must_reject, sections, facts for well-formed files, narrow kind suffix when a well-formed file is rejected)
+    # F17 (fixed): forbidden characters reaching a process name through an expansion
+    ('F17-name-through-ENV-expansion', True, [('supervisord', []), ('program:a', [('command', '/bin/cat'), ('process_name', '%(ENV_VERIF_BAD)s')])], None, None),
+    ('F17-name-through-here-expansion', True, [('supervisord', []), ('program:a', [('command', '/bin/cat'), ('process_name', 'p%(here)s')])], None, None),
+    # F31 (fixed): an unresolvable result_handler is an error message, never a TypeError
+    ('F31-relative-result_handler', True, [('supervisord', []), ('eventlistener:l', [('command', 'x'), ('events', 'TICK_5'), ('result_handler', '.foo')])], None, None),
+    ('F31-empty-result_handler', True, [('supervisord', []), ('eventlistener:l', [('command', 'x'), ('events', 'TICK_5'), ('result_handler', '')])], None, None),
+    # F32 (fixed): the pool name is validated and stripped (monitor_accepted checks the names of whatever is accepted)
+    ('F32-unstripped-eventlistener-section', None, [('supervisord', []), ('eventlistener: lx ', [('command', 'x'), ('events', 'TICK_5')])], None, None),
+    ('F32-eventlistener-section-inner-blank', True, [('supervisord', []), ('eventlistener:l x', [('command', 'x'), ('events', 'TICK_5')])], None, None),
+    # F33 (fixed): 0 / SIG_DFL / SIG_BLOCK are not signals
+    ('F33-stopsignal-zero', True, [('supervisord', []), ('program:a', [('command', 'x'), ('stopsignal', '0')])], None, None),
+    ('F33-stopsignal-SIG_DFL', True, [('supervisord', []), ('program:a', [('command', 'x'), ('stopsignal', '_DFL')])], None, None),
+    # F34 (fixed): the documented percent escape in the [supervisord] environment
+    ('F34-documented-percent-escape', False, [('supervisord', [('environment', 'URI="/first%%20name"')]), ('program:a', [('command', 'x')])],
+     _facts('URI="/first%%20name"', [('command', 'x')]), 'percent-escape-in-supervisord-environment'),
+    # F40 (open): the same escape in a program's log file name is still expanded twice
+    ('percent-escape-in-logfile', False, [('supervisord', []), ('program:a', [('command', 'x'), ('stdout_logfile', '/tmp/a%%20b.log')])],
+     _facts(None, [('command', 'x'), ('stdout_logfile', '/tmp/a%%20b.log')]), 'percent-escape-in-logfile'),
     # plain regression cases
     ('numprocs-40', None, [('supervisord', []), ('program:w', [('command', '/bin/w %(process_num)02d'), ('numprocs', '40'), ('numprocs_start', '-3'),
-                                                               ('process_name', '%(program_name)s_%(process_num)03d')])]),
+                                                               ('process_name', '%(program_name)s_%(process_num)03d')])], None, None),
     ('group-takes-programs', None, [('program:a', [('command', 'a')]), ('supervisord', []), ('program:b', [('command', 'b'), ('priority', '1')]),
-                                    ('group:g', [('programs', 'b, a'), ('priority', '5')]), ('program:c', [('command', 'c')])]),
+                                    ('group:g', [('programs', 'b, a'), ('priority', '5')]), ('program:c', [('command', 'c')])], None, None),
 ]
 
 
@@ -354,14 +377,15 @@ def run(ctx):
     rng = ctx.rng
     st = {'cases': [], 'impls': [], 'labels': [], 'k': 0}
     k = 0
-    for label, must, secs in CORPUS:
+    for label, must, secs, facts, narrow in CORPUS:
         cfg = {'sections': secs, 'include': []}
-        if label == 'documented-percent-escape':
-            cfg['expect_kind'] = 'percent-escape-in-supervisord-environment'
-            cfg['facts'] = {'supenv': None, 'programs': [], 'groups': [], 'listeners': [], 'fcgi': []}
+        if facts is not None:
+            cfg['facts'] = facts
+        if narrow:
+            cfg['expect_kind'] = narrow
         check_case(ctx, st, cfg, 'corpus:' + label, must, 'c%d' % k)
         k += 1
-    nbase = ctx.n(30, 250)
+    nbase = ctx.n(30, 180)
     for i in range(nbase):
         cfg = L.gen_config(rng, ctx.scratch, small=(i % 3 == 0))
         check_case(ctx, st, cfg, 'valid', False, 'v')
